@@ -69,6 +69,8 @@ func c07Scenarios(thorough bool) []*Scenario {
 			Requests: []SetReqOrCall{setReq("T1.leafA=x+T2.leafA=y", upd("T1", "/cont/leafA", "x"), upd("T2", "/cont/leafA", "y"))}, CrashBudget: crash},
 		{Name: "S4 Set then rollback, connected", Cfg: WorldConfig{Targets: []string{"T1"}}, Init: connectAll("T1"),
 			Requests: []SetReqOrCall{a("leafA", "1"), rollbackReq("rollback(1)", 1)}, CrashBudget: crash},
+		{Name: "S4m Set on T1+T2 then its rollback, devices offline", Cfg: WorldConfig{Targets: []string{"T1", "T2"}},
+			Requests: []SetReqOrCall{setReq("T1.leafA=x+T2.leafA=y", upd("T1", "/cont/leafA", "x"), upd("T2", "/cont/leafA", "y")), rollbackReq("rollback(1)", 1)}, CrashBudget: crash},
 		{Name: "S6 two Sets, the device always refuses the first", Cfg: WorldConfig{Targets: []string{"T1"}},
 			Init: func(w *World) {
 				connectAll("T1")(w)
